@@ -3,7 +3,6 @@ package main
 import (
 	"encoding/json"
 	"fmt"
-	"path/filepath"
 	"strings"
 
 	"simrt"
@@ -150,15 +149,15 @@ func (c16Engine) Gen(job *Job) *Case {
 }
 
 func buildCase(c *Case) *Outcome {
-	root := filepath.Join(projDir, c.Project.Root)
+	root := spellRoot(c.Project.Root, c.RootAs)
 	if c.Entry == "mem" {
 		f := c.Project.File(c.Project.Root)
 		if f == nil {
-			return BuildPath(root)
+			return BuildPath(root, c.Banned...)
 		}
-		return BuildMem(root, f.Data)
+		return BuildMem(root, f.Data, c.Banned...)
 	}
-	return BuildPath(root)
+	return BuildPath(root, c.Banned...)
 }
 
 func projectHash(p *Project) string {
